@@ -119,11 +119,15 @@ def install_parser_contracts():
 
     def scan(self, text):
         LEX["calls"] += 1
+        # only the first scan after lex_reset() is the monitored one: a command's completion
+        # callback may run another Parser (and its Lexer) to its end in between
+        outer = LEX["calls"] == 1
         last = -1
         for tok in oscan(self, text):
-            LEX["tokens"] += 1
-            if self.pos <= last:
-                LEX["rewinds"] += 1
+            if outer:
+                LEX["tokens"] += 1
+                if self.pos <= last:
+                    LEX["rewinds"] += 1
             last = self.pos
             yield tok
     sl_parser.Lexer.scan = scan
@@ -138,3 +142,4 @@ def take_fired():
 def lex_reset():
     LEX["tokens"] = 0
     LEX["rewinds"] = 0
+    LEX["calls"] = 0
